@@ -147,6 +147,7 @@ fn archives(ctx: &Ctx, i: u64) -> Arch {
     if i % 2 == 0 {
         // foreign archive, depth 1..3
         let mut o = gen::gen_foreign_opts(&mut rng, codec, 3000);
+        o.small_metadata = true; // the archive is opened hundreds of times; metadata is irrelevant here
         if i % 4 == 0 {
             o.depth = rng.range(2, 3) as u32;
             o.n_entries = o.n_entries.max(40);
@@ -173,7 +174,10 @@ fn archives(ctx: &Ctx, i: u64) -> Arch {
             7 | 9 | 17 => SizeClass::Medium,
             _ => SizeClass::Small,
         };
-        let l = gen::gen_logical(&mut rng, class, codec);
+        let mut l = gen::gen_logical(&mut rng, class, codec);
+        if l.meta.len() > 8 || serde_json::to_string(&l.meta).map_or(0, |s| s.len()) > 4096 {
+            l.meta = gen::json_object(&mut rng, 3, 5);
+        }
         let bytes = write_sync(l.build()).expect("write");
         let (steer, leaf_section, has_leaves) = steer_points(&bytes, &mut rng);
         Arch {
@@ -256,6 +260,9 @@ pub fn run(ctx: &mut Ctx) {
         }
         ctx.begin(i);
         let a = archives(ctx, i);
+        if std::env::var_os("PMVERIF_TIMING").is_some() {
+            eprintln!("case {i}: {} ({} bytes, {} steer points)", a.label, a.bytes.len(), a.steer.len());
+        }
         let mut rng = ctx.rng("c11.ranges", i);
         // full open = the oracle for this archive
         let full = guard(|| PMTiles::from_bytes(a.bytes.clone()));
